@@ -1563,3 +1563,7 @@ mod tests {
         assert!(one.is_none());
     }
 }
+
+#[cfg(kani)]
+#[path = "/verif/kani/value_argtypes.rs"]
+mod verif_kani;
